@@ -103,6 +103,13 @@ def items(tier):
         for jobs in (3, 4):
             for kinds in (["cmd"] * n, ["group"] + ["exp"] * (n - 1)):
                 out.append({"case": {"g": g, "kinds": kinds, "pars": [k != "group" for k in kinds], "jobs": jobs, "fails": {str(failing): ["exit", 3]}}, "bound": 0})
+    # the same flags given through run_experiment_group instances (every assignment for 2-4 instances)
+    import itertools as _it2
+    for k in (2, 3, 4):
+        for flags in _it2.product((False, True), repeat=k):
+            for jobs in (2, 3):
+                out.append({"case": {"g": [list(range(1, k + 1))] + [[] for _ in range(k)], "kinds": ["combine"] + ["exp"] * k,
+                                     "pars": [False] + list(flags), "jobs": jobs, "as_group": True, "fails": {}}, "bound": 0})
     # wide shapes: antichain under a root, n = 5 (root + 4 leaves), and two-level fans
     wide = [[[1, 2, 3, 4], [], [], [], []], [[1, 2], [3, 4], [3, 4], [], []], [[1, 2, 3], [4], [4], [4], []]]
     for g in wide:
